@@ -462,7 +462,16 @@ def gen_actor_case(rng, name, props, logger=False):
             elif c < 0.88 and fwds:
                 it["ops"].append({"op": "fwd", "fid": rng.choice(fwds), "val": it["id"]})
             else:
-                it["ops"].append({"op": "defer", "item": {"id": ids.next("item"), "ops": []}})
+                k = rng.random()
+                if k < 0.4:
+                    it["ops"].append({"op": "defer", "item": {"id": ids.next("item"), "ops": []}})
+                elif k < 0.7 and actors:
+                    # Actor::defer through a reference to any actor, whatever its state
+                    it["ops"].append({"op": "defer", "via": "actor", "aid": rng.choice(actors),
+                                      "item": {"id": ids.next("item"), "ops": []}})
+                else:
+                    # deferred from the actor value's own Drop handler (Actor::defer, no Core access)
+                    it["ops"].append({"op": "vdefer", "item": {"id": ids.next("item"), "ops": []}})
         # a message may carry owners / rets
         holds = {}
         if [o for o in owners if owners[o] > aid] and rng.random() < 0.12:
@@ -498,6 +507,17 @@ def gen_actor_case(rng, name, props, logger=False):
                     # lazy!/idle!([actor], method()): a closure applying the call when its turn comes
                     ops.append({"op": q, "item": {"id": ids.next("item"), "ops": [
                         {"op": "apply", "aid": tgt, "item": meth_item(tgt, 0)}]}})
+            elif c < 0.47:
+                # query!: synchronous; the method may stop/fail the actor on the spot
+                tgt = rng.choice(actors)
+                qi = meth_item(tgt, 2)
+                if rng.random() < 0.5:
+                    ops.append({"op": "query", "aid": tgt, "item": qi})
+                else:
+                    ops.append({"op": rng.choice(["defer", "lazy", "idle"]), "item": {"id": ids.next("item"), "ops": [
+                        {"op": "query", "aid": tgt, "item": qi}]}})
+                if rng.random() < 0.5:
+                    ops.append({"op": "zombie", "aid": tgt})
             elif c < 0.50:
                 tgt = rng.choice(actors)
                 ops.append({"op": "call", "aid": tgt, "prep": True,
@@ -531,6 +551,9 @@ def gen_actor_case(rng, name, props, logger=False):
                 fwds.append(fid)
             elif c < 0.90 and fwds:
                 ops.append({"op": "fwd", "fid": rng.choice(fwds), "val": ids.next("item")})
+            elif c < 0.915:
+                ops.append({"op": "defer", "via": "actor", "aid": rng.choice(actors),
+                            "item": {"id": ids.next("item"), "ops": []}})
             elif c < 0.93:
                 ops.append({"op": "refstorm", "aid": rng.choice(actors), "n": rng.randrange(1, 6)})
             elif c < 0.96:
@@ -601,6 +624,63 @@ def gen_grow_case(rng, name, props):
     return {"case": name, "props": props, "acyclic": True, "ops": ops}
 
 
+_IDKEYS = ("id", "aid", "oid", "oid2", "rid", "fid", "tid")
+
+
+def _remap(x, off):
+    """Shift every identifier of a generated program (second life of a case)."""
+    if isinstance(x, list):
+        return [_remap(v, off) for v in x]
+    if isinstance(x, dict):
+        out = {}
+        for k, v in x.items():
+            if k in _IDKEYS and isinstance(v, int) and v > 0:
+                out[k] = v + off
+            elif k in ("owns", "rets") and isinstance(v, list):
+                out[k] = [i + off for i in v]
+            else:
+                out[k] = _remap(v, off)
+        return out
+    return x
+
+
+def gen_restakker_case(rng, name, props):
+    """Two lives on one thread: a program that is cut short by dropping its
+    Stakker with traffic pending (and handles released only afterwards), then
+    a second Stakker running an unrelated program."""
+    fam1 = rng.choice(["a", "a", "q"])
+    first = FAMILIES[fam1](rng, name, props)
+    ops1 = list(first["ops"])
+    # cut the first life short, somewhere after its first run
+    runs = [i for i, o in enumerate(ops1) if o.get("op") == "run"]
+    if runs and rng.random() < 0.7:
+        ops1 = ops1[:rng.choice(runs) + (1 if rng.random() < 0.5 else 0)]
+    ops1 = [o for o in ops1 if o.get("op") != "drop_stakker"]
+    if rng.random() < 0.5:
+        ops1.append({"op": "drop_stakker"})
+        # post-mortem: handles deferring into the void
+        for _ in range(rng.randrange(0, 3)):
+            ops1.append({"op": "defer", "via": "deferrer", "item": {"id": 900 + rng.randrange(50), "ops": []}})
+    second = FAMILIES[rng.choice(["a", "q"])](rng, name, props)
+    ops2 = _remap(second["ops"], 1000)
+    return {"case": name, "props": props, "acyclic": False, "ops": ops1 + [{"op": "restakker"}] + ops2}
+
+
+def gen_park_case(rng, name, props):
+    """An application parks handles the runtime gave it in a thread-local of
+    its own (created before the Stakker): they are dropped when the thread
+    exits, after the runtime's thread-locals."""
+    c = gen_actor_case(rng, name, props)
+    ops = [o for o in c["ops"] if o.get("op") != "drop_stakker"]
+    oids = [o["oid"] for o in ops if o.get("op") == "acreate" and o.get("oid")]
+    cut = [i for i, o in enumerate(ops) if o.get("op") == "run"]
+    if oids and cut:
+        k = rng.choice(cut) + 1
+        # (an owner that was consumed in the meantime makes the op a no-op)
+        ops.insert(k, {"op": "park", "oid": rng.choice(oids)})
+    return {"case": name, "props": props, "acyclic": False, "ops": ops}
+
+
 FAMILIES = {
     "q": lambda rng, name, props: gen_queue_case(rng, name, props),
     "qbig": lambda rng, name, props: gen_queue_case(rng, name, props, big=True),
@@ -609,7 +689,36 @@ FAMILIES = {
     "c19": lambda rng, name, props: gen_c19_case(rng, name, props),
     "a": lambda rng, name, props: gen_actor_case(rng, name, props),
     "alog": lambda rng, name, props: gen_actor_case(rng, name, props, logger=True),
+    "re": lambda rng, name, props: gen_restakker_case(rng, name, props),
+    "park": gen_park_case,
 }
+
+
+def _bodies(ops, acc):
+    for o in ops:
+        for k in ("item", "init"):
+            it = o.get(k)
+            if isinstance(it, dict) and isinstance(it.get("ops"), list):
+                acc.append(it["ops"])
+                _bodies(it["ops"], acc)
+                for od in it.get("ondrop", []) or []:
+                    pass
+    return acc
+
+
+def inject_boom(rng, case):
+    """Make one closure / method of the case panic at a random point of its
+    body; the harness catches the unwind outside run() and releases the rest."""
+    bodies = _bodies(case["ops"], [])
+    if not bodies:
+        return case
+    b = rng.choice(bodies)
+    b.insert(rng.randrange(0, len(b) + 1), {"op": "boom"})
+    case["boom"] = True
+    return case
+
+
+BOOM_RATE = {"q": 0.08, "qbig": 0.08, "qgrow": 0.1, "a": 0.06, "t": 0.03}
 
 
 def gen_cases(seed, plan, props):
@@ -617,6 +726,10 @@ def gen_cases(seed, plan, props):
     out = []
     for fam, n in plan:
         rng = random.Random((seed * 1000003) ^ zlib.crc32(fam.encode()))
+        rng2 = random.Random((seed * 7919) ^ zlib.crc32(fam.encode()))
         for i in range(n):
-            out.append(FAMILIES[fam](rng, "%s-%d-%d" % (fam, seed, i), props))
+            c = FAMILIES[fam](rng, "%s-%d-%d" % (fam, seed, i), props)
+            if rng2.random() < BOOM_RATE.get(fam, 0):
+                c = inject_boom(rng2, c)
+            out.append(c)
     return out
